@@ -152,7 +152,7 @@ func ruleXZReaderChecks(c *Ctx, r *Report, prefix string) {
 				if !ok || fieldOfAddr(fa) == nil || fieldOfAddr(fa).Name() != "indexSize" {
 					continue
 				}
-				if roleBinOp(token.MUL, roleBinOp(token.ADD, roleCallTo(uint32LE, roleSlice(data, 4, -1)), roleConst(1)), roleConst(4))(st.Val) {
+				if t := staticTerm(c, st.Val, uint32LE); t == "(shl (+ (call xz.uint32LE (slice $data 4:)) 1) 2)" {
 					okBS = true
 				}
 			}
@@ -477,7 +477,7 @@ func ruleXZReaderChecks(c *Ctx, r *Report, prefix string) {
 				return false
 			}
 			pc, ok := stripConv(sl.High).(*ssa.Call)
-			if !ok || pc.Call.StaticCallee() != padLen || !roleFieldLoad(fCRn)(pc.Call.Args[0]) {
+			if !ok || pc.Call.StaticCallee() != padLen || !mc(pc.Call.Args[0]) {
 				return false
 			}
 			if !filledByReadFullFrom(stripConv(sl.X), roleFieldLoad(fCRr)) {
